@@ -151,11 +151,17 @@ func (m *c29Model) put(name, v string, add bool) {
 	case c29ClsTrailer:
 		m.trailer = []string{c29Canon(v, m.normOff)}
 	case c29ClsCookie:
-		// the values of the alphabet hold no '=' and no ';': one cookie per call
-		if m.resp {
-			m.cookies = append(m.cookies, c29KV{v, v}) // key = text before '=' = the whole value
-		} else {
-			m.cookies = append(m.cookies, c29KV{"", v})
+		if m.resp { // one Set-Cookie value = one cookie; its key is the text before '=' (the whole value if there is none)
+			k, _, _ := strings.Cut(v, "=")
+			m.cookies = append(m.cookies, c29KV{k, v})
+		} else { // a Cookie value is a "; " separated list of key=value (or bare value) pairs
+			for _, part := range strings.Split(v, "; ") {
+				if k, val, ok := strings.Cut(part, "="); ok {
+					m.cookies = append(m.cookies, c29KV{k, val})
+				} else {
+					m.cookies = append(m.cookies, c29KV{"", part})
+				}
+			}
 		}
 	default:
 		if !add {
@@ -328,6 +334,8 @@ func (o c29Op) String() string {
 		return fmt.Sprintf("%s(%q,%q)", o.Kind, o.Name, o.Val)
 	case "Del", "DelCookie":
 		return fmt.Sprintf("%s(%q)", o.Kind, o.Name)
+	case "ReadRaw":
+		return fmt.Sprintf("Read(%q)", o.Val)
 	}
 	return o.Kind
 }
@@ -356,6 +364,17 @@ func c29Neutralise(v string) string {
 
 // c29TrimOWS removes optional whitespace around a field value (not part of the value on the wire, RFC 9110 5.5).
 func c29TrimOWS(v string) string { return strings.Trim(v, " \t") }
+
+// hand-written heads: special fields (Cookie / Set-Cookie, Host, Content-Type, ...) sit in the middle of multi-valued
+// ordinary names, and a multi-valued name ends the head.
+var c29RawReq = []string{
+	"GET / HTTP/1.1\r\nX-B: 1\r\nHost: h\r\nX-A: 1\r\nCookie: c=1; d=2\r\nX-A: 2\r\nContent-Type: t\r\nUser-Agent: ua\r\nX-A: 3\r\n\r\n",
+	"GET / HTTP/1.1\r\nAccept: a\r\nCookie: c=1\r\nHost: h\r\nAccept: b\r\nAccept: c\r\n\r\n",
+}
+var c29RawResp = []string{
+	"HTTP/1.1 200 OK\r\nX-B: 1\r\nX-A: 1\r\nSet-Cookie: c=1\r\nX-A: 2\r\nServer: s\r\nContent-Type: t\r\nSet-Cookie: d=2\r\nContent-Length: 0\r\nX-A: 3\r\n\r\n",
+	"HTTP/1.1 200 OK\r\nAccept: a\r\nSet-Cookie: c=1\r\nAccept: b\r\nContent-Length: 0\r\nAccept: c\r\n\r\n",
+}
 
 func c29Alphabet() []c29Op {
 	var ops []c29Op
@@ -550,6 +569,30 @@ func (c *c29Ctx) apply(h *c29Real, m *c29Model, o c29Op, path []c29Op) (bool, bo
 			h.rq.DelCookie(o.Name)
 		}
 		m.delCookie(o.Name)
+	case "ReadRaw": // only as the first operation: the header is parsed from hand-written wire bytes
+		n := c29NewReal(h.resp, c.normOff)
+		br := bufio.NewReader(strings.NewReader(o.Val))
+		var err error
+		if h.resp {
+			err = n.rs.Read(br)
+		} else {
+			err = n.rq.Read(br)
+		}
+		if err != nil || br.Buffered() != 0 {
+			c.r.ToolError("raw start head %q: Read error %v, %d bytes left", o.Val, err, br.Buffered())
+		}
+		*h = *n
+		*m = *c29NewModel(c.resp, c.normOff)
+		lines := strings.Split(o.Val, "\r\n")
+		for _, ln := range lines[1:] {
+			if name, val, ok := strings.Cut(ln, ":"); ok {
+				m.put(name, c29TrimOWS(val), true) // reading = one append per line; special names keep the last value
+			}
+		}
+		m.origin = 2
+		// framing fields are taken over without touching All() (cookies of a request stay uncollected)
+		m.conn = string(h.peek("Connection"))
+		*m.singleSlot("Content-Length") = string(h.peek("Content-Length"))
 	case "CopyTo":
 		n := c29NewReal(h.resp, false) // CopyTo must carry the normalisation setting itself
 		if h.resp {
@@ -804,6 +847,11 @@ func (c *c29Ctx) check(h *c29Real, m *c29Model, path []c29Op) bool {
 			}
 		}
 	}
+	for _, f := range m.fields { // names outside the op alphabet (raw start heads)
+		if !seen[f.K] {
+			return report("all", f.K, "value-missing", fmt.Sprintf("All() yields nothing under %q, model has %q", f.K, f.V))
+		}
+	}
 	// PeekKeys: the keys of All(), in the same order
 	keys := h.peekKeys()
 	j := 0
@@ -905,25 +953,37 @@ func TestVerif_C29(t *testing.T) {
 	ops := c29Alphabet()
 	depth := vrt.Pick(r, 3, 4)
 	preDepth := vrt.Pick(r, 2, 4) // depth explored after the preamble
+	rawDepth := vrt.Pick(r, 2, 3) // depth explored after a header parsed from hand-written wire bytes
 	// second start state: a header that already holds a multi-valued name behind another name, and three cookies
 	preamble := []c29Op{{"Add", "X-B", "1"}, {"Add", "X-A", "1"}, {"Add", "X-A", "2"}, {"Add", "X-A", "close"}, {"SetCookie", "a", "1"}, {"SetCookie", "b", "1"}, {"SetCookie", "c", "1"}, {"Set", "Host", "h"}}
 	r.Rule(fmt.Sprintf("explicit-state BFS over RequestHeader and ResponseHeader, header-name normalisation on and off: all sequences of at most %d operations over {Set,Add}x%q x%q, {Set,Add}x%q x line-break values %q (model: every CR/LF becomes a space), Del x names, "+
-		"SetCookie{a,b}x{1,2}, DelCookie{a,b}, CopyTo (continue on the copy), write->read (continue on the header read back) (%d ops) from an empty header, and of at most %d operations after the preamble %v; "+
+		"SetCookie{a,b}x{1,2}, DelCookie{a,b}, CopyTo (continue on the copy), write->read (continue on the header read back) (%d ops) from an empty header, of at most %d operations after the preamble %v, and of at most %d operations after reading each of the hand-written heads %q / %q; "+
 		"states de-duplicated on the reference model's canonical state; every transition replays the parent's path on a fresh header and checks PeekAll, Peek, All, PeekKeys against the model "+
 		"(ordered multimap per canonical name; special names single-valued; cookies accumulate) and, for write->read, the non-framing field sequence before/after; "+
-		"non-trivial: states with two or more values under one name or two or more cookies", depth, c29Names, c29Values, c29BreakNames, c29BreakValues, len(ops), preDepth, preamble))
+		"non-trivial: states with two or more values under one name or two or more cookies", depth, c29Names, c29Values, c29BreakNames, c29BreakValues, len(ops), preDepth, preamble, rawDepth, c29RawReq, c29RawResp))
 	r.Assume("Set replaces the first value of an ordinary name and leaves further values of that name in place (literal reading of the statement; it matches the implementation)",
 		"framing fields (Content-Length, Transfer-Encoding, Connection), Date and default Content-Type values are outside the write->read comparison; after a read-back the model takes the framing fields over from the implementation",
 		"the order of fields of different names in All() is not compared with the model, only the order of the values under each name")
 	r.Set("max_depth", depth)
 	r.Set("max_depth_after_preamble", preDepth)
+	r.Set("max_depth_after_raw_head", rawDepth)
 	r.Set("ops_in_alphabet", len(ops))
 	type cfgT struct{ resp, normOff bool }
 	for _, cfg := range []cfgT{{false, false}, {true, false}, {false, true}, {true, true}} {
-		for si, pre := range [][]c29Op{nil, preamble} {
+		raws := c29RawReq
+		if cfg.resp {
+			raws = c29RawResp
+		}
+		startList := [][]c29Op{nil, preamble}
+		for _, raw := range raws {
+			startList = append(startList, []c29Op{{Kind: "ReadRaw", Val: raw}})
+		}
+		for si, pre := range startList {
 			d := depth
 			if si == 1 {
 				d = preDepth
+			} else if si >= 2 {
+				d = rawDepth
 			}
 			cfgName := fmt.Sprintf("%s/norm=%v/start%d", map[bool]string{false: "request", true: "response"}[cfg.resp], !cfg.normOff, si)
 			visited := newC29Set()
